@@ -140,7 +140,8 @@ def check_round(case, state):
         ref_p = R.rho_ref(am, ph, V)
         pv_p = torch.exp(R.log_prob_visible(am, V))
     sc_p = torch.sqrt(ref_p.diagonal().real[:, None] * ref_p.diagonal().real[None, :])
-    require(bool(torch.all((rho - ref_p).abs() <= 1e-11 * sc_p + 1e-300)), "precision:rho", "rho is not accurate to double precision (1e-11 of sqrt(rho_ii rho_jj) against the product-form reference)",
+    prec_rho = 1e-11 + 1e-14 / max(gen.min_aux_factor(case), 1e-12)      # digits any log-representation of rho(v, v') loses where an auxiliary-unit factor nearly vanishes
+    require(bool(torch.all((rho - ref_p).abs() <= prec_rho * sc_p + 1e-300)), "precision:rho", "rho is not accurate to double precision (1e-11 of sqrt(rho_ii rho_jj) against the product-form reference)",
             worst=float(((rho - ref_p).abs() / (sc_p + 1e-300)).max()))
     require(bool(torch.all((prob - pv_p).abs() <= 1e-11 * pv_p)) and abs(Z - float(pv_p.sum())) <= 1e-11 * float(pv_p.sum()), "precision:probability/normalization",
             "probability / normalization are not accurate to double precision", worst=float(((prob - pv_p).abs() / pv_p).max()))
